@@ -173,6 +173,21 @@ def run(tier, seed):
             hit = cg.reachable([pa.name]) & targets
             rep.check(rid, not hit, "print_archive reaches no mutator", pa.file, "reaches %s" % sorted(hit) if hit else None, function="print_archive", obj="reach")
 
+        # ---- R1c: the dry-run letter is never lost -----------------------------------------------------------------------------
+        rid = rep.rule("R1c", "parse_options examines every character of the option word (the cursor advances by one; by two only past a digit; or takes the rest as w's directory) "
+                              "and sets options->dry_run for every 'n' it meets", 2)
+        po = rep.need(rid, mod.fn("parse_options"), "function parse_options")
+        if po:
+            from ..scan import check_option_word
+            ok, problems, stats = check_option_word(po, ctx.facts(po), "LHAOptions", "dry_run", "n")
+            rep.extra["parse_options_paths"] = stats
+            for w_, text in problems:
+                rep.violation(rid, "parse_options: %s" % text, w_, "an 'n' in the option word can fail to make the command a dry run: files would be written by a command that promises not to",
+                              function="parse_options", obj="option-word")
+            for k in ("step1", "step2-digit", "rest", "letter"):
+                for _ in range(min(stats.get(k, 0), 3)):
+                    rep.ok(rid, "parse_options: %s path conforms" % k, None, "%s:%s" % (po.file, po.line))
+
         # ---- R3: O_EXCL discipline --------------------------------------------------------------------------
         rid = rep.rule("R3", "lha_arch_fopen: unlink(filename) then open(filename, O_CREAT|O_EXCL, no O_TRUNC); lha_arch_symlink: unlink(path) then symlink(target, path)", 6)
         fo = rep.need(rid, mod.fn("lha_arch_fopen"), "function lha_arch_fopen")
